@@ -346,6 +346,11 @@ class Intracomm:
         sq = self.sendq.get(key, [])
         rq = self.recvq.get(key, [])
         while True:
+            # queues hold pending requests only (matched / cancelled ones are dropped from the head), so matching stays O(1)
+            while sq and (sq[0].matched or sq[0].cancelled):
+                sq.pop(0)
+            while rq and (rq[0].matched or rq[0].cancelled):
+                rq.pop(0)
             s = next((x for x in sq if not x.matched and not x.cancelled), None)
             r = next((x for x in rq if not x.matched and not x.cancelled), None)
             if s is None or r is None:
